@@ -92,6 +92,14 @@ CLAIMS = {
         "three positions) contribute data bits, and agree on base32 / crc32 values.",
    note="Strings: SHA-256 and SHA-1 (quick), plus SHA-384/SHA-512 and more times (thorough); times from {0,1,2^31,2^32,1.5e9,2^63,2^64-1}. Defect F-C17-1 fixed.",
    technique="TLC proof by exhaustive CRC computation over all variants of sampled strings + replay of every variant into libksi"),
+ "C20": dict(level="model_checking", design_ref="DESIGN.md 4/C20",
+   text="Uri.tla composes URIs from parts and defines Dispatch(kind, uri, explicit credentials): case-insensitive scheme map with rewriting, TCP host/port, "
+        "file and unknown schemes per service kind, separate precedence of explicit login id and key; TLC checks PartsPreserved on the whole table (all 472 "
+        "letter-case spellings + unknown schemes; canonical spellings x credentials x host forms x ports x path x query x fragment x explicit credentials x "
+        "blocking/async = 1.4e4 cases) and exports URI + Dispatch. Each URI is given to KSI_CTX_setAggregator/setExtender and KSI_AsyncService_setEndpoint; what "
+        "the transports' configuration entry points receive (interposed at link time) must equal Dispatch and must not contain the embedded credentials.",
+   note="quick: every spelling + a seeded sample of 4000 product cases (x aggregator/extender); thorough: the full table. Known finding F-C20-1 (fragment without path); defects F-C20-2, F-C20-3 fixed. The login id / key actually used on the wire are C06/C07's.",
+   technique="TLC-checked composition/dispatch table replayed into the blocking and asynchronous services with link-time interposed transport setters"),
 }
 for e in ENGINES:
     e["serves_properties"] = sorted(CLAIMS)
